@@ -101,7 +101,10 @@ func (p *MACPayload) UnmarshalBinary(uplink bool, data []byte) error {
 
 		// even when FPort = 0, we store the mac-commands within a DataPayload.
 		// only after decryption we're able to unmarshal them.
-		p.FRMPayload = []Payload{&DataPayload{Bytes: data[7+p.FHDR.FCtrl.fOptsLen+1:]}}
+		// (the bytes are copied: the decoded frame must not share memory with the input buffer)
+		frmPayload := make([]byte, len(data[7+p.FHDR.FCtrl.fOptsLen+1:]))
+		copy(frmPayload, data[7+p.FHDR.FCtrl.fOptsLen+1:])
+		p.FRMPayload = []Payload{&DataPayload{Bytes: frmPayload}}
 	}
 
 	return nil
